@@ -286,7 +286,7 @@ Definition s_bad_ref : str := [63;114;101;102;58].           (* ?ref: *)
 
 (** checks/C01.py [merge_raw]; [acc]: the pending run ([None] = no run) *)
 Fixpoint merge_raw (l : list dtoken) (acc : option str) : Infoset.infoset :=
-  let flush := match acc with Some (_ :: _ as s) => [Infoset.TText s] | _ => [] end in
+  let flush := match acc with Some (c :: s) => [Infoset.TText (c :: s)] | _ => [] end in
   let add s := Some (match acc with Some a => a ++ s | None => s end) in
   match l with
   | [] => flush
